@@ -15,6 +15,7 @@ TRUSTED = [
 ]
 
 
+RACE_QUICK = {"C09": 30, "C12": 30}   # family -> rounds of the quick tier's pass under the race detector
 FREE_ROUNDS = {"C09": (150, 1500), "C12": (150, 1500), "C11": (40, 400), "C06": (60, 600)}   # family -> (quick, thorough) rounds of free-running stress
 
 
@@ -281,6 +282,26 @@ def run_family(ctx, family, tier=None, seed=None, replay_cases=None):
                              "icaps": [], "ocaps": [1], "inputs": [], "moves": [], "calls": [], "gen": "free-running: process crashed", "crash": msg})
             ctx.notes["free_running"] = {"rounds": rounds, "runs_per_stage": stats, "cases_forwarded_to_coq": len(free)}
             result += free
+            if (tier or ctx.tier) != "thorough" and family in RACE_QUICK and rc == 0:
+                # quick tier: a short pass of the same stress under the race detector (whether two goroutines of a stage
+                # meet on a shared variable within a few hundred unguarded runs depends on the load of the machine; the
+                # detector does not need them to collide)
+                race_exe = os.path.join(d, "pool_race.test")
+                rc_b, out_b = vlib.go_build(d, ".", race_exe, test=True, race=True)
+                if rc_b != 0:
+                    ctx.notes["race_build"] = "failed: " + out_b[-300:]
+                else:
+                    if os.path.exists(out):
+                        os.remove(out)
+                    env3 = dict(env2)
+                    env3["VERIF_FREE"] = str(RACE_QUICK[family])
+                    env3["GORACE"] = "halt_on_error=1"
+                    rc3, log3 = vlib.sh([race_exe, "-test.run", "TestFree", "-test.timeout", "600s"], cwd=d, env=env3, timeout=700)
+                    ctx.notes["race_pass"] = {"rounds": RACE_QUICK[family], "exit": rc3}
+                    if rc3 != 0:
+                        msg = "\n".join(l for l in log3.split("\n") if "panic" in l or "fatal" in l or "DATA RACE" in l)[:400] or log3[-400:]
+                        result.append({"idx": 1999998, "family": family, "stage": {"kind": "join", "n": 0} if family == "C12" else {"kind": "fork", "par": 1, "inner": {"kind": "void"}},
+                                       "icaps": [], "ocaps": [1], "inputs": [], "moves": [], "calls": [], "gen": "free-running under -race: process crashed", "crash": msg})
         return result
     finally:
         shutil.rmtree(d, ignore_errors=True)
